@@ -16,14 +16,14 @@ of the server placement assigned to its routing key -, the batch servers are enu
 own client in the client table; the exchange loop makes at most one inner call per batch, on the client of that batch's own
 server, with exactly that batch and the caller's arguments, and merges one answer per batch. So each key is sent to
 route(key) exactly once and get_many is the union of the per-server answers (= the per-key gets, by C11 and the single-key
-part). Undecided multi-key VCs (quantified invariants give no counter-models) are decided by the bounded replay below.
+part). delete_many: for every key in order, one single-key delete through the same route (loop invariant FW; per-key exchange obligation).
+Undecided multi-key VCs (quantified invariants give no counter-models) are decided by the bounded replay below.
 """
 from . import hashmodel as hm, hashmany as hmany
 
 TRUSTED = ["C11 contract of RendezvousHash.get_node", "C13 contracts of _safely_run_func / _safely_run_set_many / _retry_dead", "A-defaultdict (ghost model of collections.defaultdict(list|dict): insertion-ordered, d[k] creates)", "HashClient.wf: the client table is keyed by node name (established by __init__/add_server with normalised specs)"]
 ASSUMPTIONS = ["servers were added through the constructor (normalised specs)", "no server fails during the call (that is C13)"]
-NOT_COVERED = ["delete_many / touch_many (thin loops over the single-key path) are not separately mechanised",
-               "set_many: (server_key, key) pairs sharing one stripped key on one server (dict overwrite) are excluded by a stated assumption",
+NOT_COVERED = [               "set_many: (server_key, key) pairs sharing one stripped key on one server (dict overwrite) are excluded by a stated assumption",
                "the step from 'union of per-server answers' to 'equals the per-key gets' uses C11 (placement is a function) as a lemma, not re-proved here"]
 BUDGET = {"quick": 30, "thorough": 120}
 FILTER_BY_PROPERTY = True
@@ -34,6 +34,7 @@ def build(E, tier):
     hm.verify_hash_single(E)
     hmany.verify_get_client(E, "C12")
     hmany.verify_hash_many(E, prop="C12")
+    hmany.verify_hash_delete_many(E, prop="C12")
 
 
 REPLAY = r'''
@@ -48,7 +49,7 @@ class FakeClient:
     def get(self, key, default=None, **kw): log.append((self.server, "get", key)); return self.data.get(self._k(key), default)
     def gets(self, key, default=None, cas_default=None, **kw):
         log.append((self.server, "gets", key)); return (self.data[self._k(key)], b"1") if self._k(key) in self.data else (default, cas_default)
-    def delete(self, key, *a, **kw): log.append((self.server, "delete", key)); return self.data.pop(self._k(key), None) is not None
+    def delete(self, key, *a, **kw): log.append((self.server, "delete", key, a, tuple(sorted(kw.items())))); return self.data.pop(self._k(key), None) is not None
     def incr(self, key, value, *a, **kw): log.append((self.server, "incr", key)); return 1 if self._k(key) in self.data else None
     def touch(self, key, *a, **kw): log.append((self.server, "touch", key)); return self._k(key) in self.data
     def get_many(self, keys, *a, **kw):
@@ -131,6 +132,14 @@ for nserv in (1, 2, 3, 5):
                 if many != want or sorted(map(repr, sent)) != sorted(repr((owner[sk], sk)) for sk in stripped):
                     fail(op=meth, servers=nserv, keys=repr(keys)[:200], sent=repr(sent)[:300], result=repr(many)[:200]); break
             if bad: break
+            # delete_many: every key deleted once, on its own server, with the caller's arguments
+            del log[:]
+            r = hc.delete_many(keys, False) if size % 2 else hc.delete_many(keys, noreply=False)
+            sent = [(x[0], x[2]) for x in log if x[1] == "delete"]
+            args_ok = all((x[3], x[4]) == (((False,), ()) if size % 2 else ((), (("noreply", False),))) for x in log if x[1] == "delete")
+            if r is not True or not args_ok or sorted(map(repr, sent)) != sorted(repr((owner[sk], sk)) for sk in stripped):
+                fail(op="delete_many", servers=nserv, keys=repr(keys)[:200], sent=repr(log)[:300], result=repr(r)); break
+            hc.set_many({k: ("v-%r" % (sk,)) for k, sk in zip(keys, stripped)})
             # set then delete / incr / touch go to the same server as set
             for k, sk in list(zip(keys, stripped))[:5]:
                 for op, call in (("set", lambda: hc.set(k, "w")), ("incr", lambda: hc.incr(k, 1)), ("touch", lambda: hc.touch(k, 5)), ("delete", lambda: hc.delete(k))):
